@@ -197,7 +197,8 @@ pub fn all_ok(o: &Outcome) -> bool {
 }
 
 /// Checked no-growth model of std's Vec for the harnesses (Kani stubs, `-Z stubbing`).
-/// The assembler's buffers get a fixed capacity up front; exceeding it is an *asserted*
+/// The assembler's buffers get a fixed capacity up front (32 or 176 elements, chosen per
+/// harness); exceeding it is an *asserted*
 /// check (a harness whose code does not fit is reported as inconclusive, never silently
 /// truncated).  This removes the "reallocate at a symbolic length" case split that makes
 /// CBMC's formula explode (> 50 GB) as soon as an instruction has a variable-length prefix.
@@ -205,10 +206,13 @@ pub fn all_ok(o: &Outcome) -> bool {
 #[cfg(kani)]
 pub mod vecmodel {
     use std::alloc::Allocator;
-    pub const CAP: usize = 192;
-
-    pub fn new<T>() -> Vec<T> {
-        Vec::with_capacity(CAP)
+    /// capacities: 32 is enough for one instruction (<= 15 bytes) plus the label harness
+    /// scaffolding with a short filler, 176 for the longest filler (128 + 7) of the branch units
+    pub fn new_32<T>() -> Vec<T> {
+        Vec::with_capacity(32)
+    }
+    pub fn new_176<T>() -> Vec<T> {
+        Vec::with_capacity(176)
     }
 
     pub fn push<T, A: Allocator>(v: &mut Vec<T, A>, x: T) {
